@@ -148,5 +148,14 @@ CHECKS["C15"] = dict(
          "bytes the first reads return with the plain data (bytes of two-byte commands and an escaped 0xFF may appear or not), for whole / byte-wise / cut-after-IAC / halved / paused segmentations and read "
          "sizes 8192, 2, 1.",
     note="Trusted: TLC, loopback TCP. Socket timeout 240 ms; mismatches must reproduce when re-executed alone. One genuine defect repaired (data dropped after IAC NOP / IAC IAC).")
+CHECKS["C14"] = dict(
+    category="model_checking", design_ref="DESIGN.md §5 C14, §11",
+    technique="TLA+/TLC: HostKey.tla states the host-key decision table and identity contract (invariants tie it to the property's wording) and enumerates all 64 cells; each cell is executed as a real "
+              "connection attempt against an in-process SSH server with a fresh host key (standard transport; system transport through /usr/bin/ssh and through an argv-recording stand-in)",
+    text="For every cell the harness compares: Open's outcome with the table (and the bad-option class when the standard transport is strict without a file); that no password reached a server whose key "
+         "was refused; on success the user, the configured key and/or password as seen by the server's authentication callbacks (incl. the cell where the server rejects the key and the password must be "
+         "used) and a first command over the session; for the system transport the exact ssh argument list (host first, port, user, StrictHostKeyChecking, UserKnownHostsFile, -F, -i, extra arguments last, "
+         "never the password).",
+    note="The TLA+ content here is a finite table; the assurance rests on the conformance run (stated in DESIGN.md §7). Trusted: golang.org/x/crypto/ssh as server, OpenSSH 9.2 as the system transport's child.")
 PENDING_REASON = "check not built yet in this session (work in progress; see DESIGN.md §5 for the planned TLA+ specification and binding)"
 NOT_APPLICABLE = {}
